@@ -291,6 +291,10 @@ class KindDomain(Domain):
                 names = [(path_of(target) or "", frozenset({STRING}))]
             elif fname == "range" and not isinstance(target, ast.Tuple):
                 names = [(path_of(target) or "", frozenset({INT}))]
+            elif fname == "zip" and isinstance(target, ast.Tuple) and len(target.elts) == len(it.args):
+                for tg, a in zip(target.elts, it.args):
+                    an = a.func.id if isinstance(a, ast.Call) and isinstance(a.func, ast.Name) else None
+                    names.append((path_of(tg) or "", frozenset({INT}) if an == "range" else self.elem_default))
         if not names:
             targets = target.elts if isinstance(target, (ast.Tuple, ast.List)) else [target]
             stack = list(targets)
